@@ -149,7 +149,7 @@ def checkK (c : EncCase) (r : EncOk) (d : Decoded) : Option String :=
 /-- C10: no listed symbol of smaller capacity admits a legal encoding found by the search;
 the witness stream is part of the message -/
 def checkO (c : EncCase) (sizeCap : Option Nat) : Option String :=
-  if c.macros ∨ c.fnc1 ∨ c.eci.isSome then none else
+  if (c.macros ∧ macroHeadOf c.input ≠ 0) ∨ c.fnc1 ∨ c.eci.isSome then none else
   let list := symbolList (maskList c.mask)
   let caps := list.map dataCw
   match DM.Spec.Opt.search c.input c.modes caps with
